@@ -149,7 +149,8 @@ func TestVerifyRequest(t *testing.T) {
 		class := gen.Pick(t, []string{"honest", "flip-requestkey", "flip-namekeyid", "flip-ciphertext", "flip-signature",
 			"sig-from-other-client", "sig-from-other-blind", "whole-request-other-blind", "sig-malleated", "sig-extreme",
 			"blind-other", "blind-leading-zero", "blind-empty", "clientkey-other", "clientkey-negated", "clientkey-malformed", "requestkey-malformed",
-			"ciphertext-other-request", "requestkey-other-client", "namekeyid-extended", "namekeyid-shortened", "ciphertext-extended", "ciphertext-shortened"}, "class")
+			"ciphertext-other-request", "requestkey-other-client", "namekeyid-extended", "namekeyid-shortened", "ciphertext-extended", "ciphertext-shortened",
+			"requestkey-replaced-signed-by-blinded-key", "contents-changed-signed-by-blinded-key"}, "class")
 		switch class {
 		case "flip-requestkey":
 			flip(t, req.RequestKey, "bit")
@@ -209,6 +210,39 @@ func TestVerifyRequest(t *testing.T) {
 			case 2:
 				req.RequestKey = req.RequestKey[:48]
 			}
+		case "requestkey-replaced-signed-by-blinded-key", "contents-changed-signed-by-blinded-key":
+			// the attacker IS the client: it holds the genuine blinded signing key d*r and signs whatever it likes with it.
+			// Either the request key on the wire is replaced (another valid key, the unblinded client key, one bit flipped,
+			// 49 bytes that are no point) - then the signature does not verify under the request key; or the contents
+			// are changed and correctly re-signed - then the request is authentic again and may be accepted.
+			dC := new(big.Int).SetBytes(a.ClientSecret)
+			rB := ref.ECDSABlindScalar(elliptic.P384(), new(big.Int).SetBytes(a.BlindKey), clientBlindCtx)
+			db := new(big.Int).Mod(new(big.Int).Mul(dC, rB), n)
+			bx, by := elliptic.P384().ScalarBaseMult(db.Bytes())
+			signer := &stdecdsa.PrivateKey{PublicKey: stdecdsa.PublicKey{Curve: elliptic.P384(), X: bx, Y: by}, D: db}
+			if class == "requestkey-replaced-signed-by-blinded-key" {
+				switch gen.Uniform(t, 4, "replacement") {
+				case 0:
+					req.RequestKey = append([]byte{}, otherClient.Request().RequestKey...)
+				case 1:
+					req.RequestKey = append([]byte{}, a.State3.ClientKey()...) // the unblinded client key
+				case 2:
+					flip(t, req.RequestKey, "bit")
+				case 3:
+					for i := 1; i < len(req.RequestKey); i++ {
+						req.RequestKey[i] = 0xff
+					}
+				}
+			} else {
+				flip(t, req.EncryptedTokenRequest, "bit")
+			}
+			msg := ref.EncodeRateLimitedRequest(req.RequestKey, req.NameKeyID, req.EncryptedTokenRequest, nil)
+			dg := sha512.Sum384(msg)
+			rr, ss, err := stdecdsa.Sign(rt.NewDRBG(gen.Seed().Draw(t, "signEntropy")), signer, dg[:])
+			if err != nil {
+				t.Fatalf("harness: %v", err)
+			}
+			req.Signature = append(be48(rr), be48(ss)...)
 		case "namekeyid-extended":
 			req.NameKeyID = append(req.NameKeyID, gen.Bytes(t, 1, 4, "extra")...)
 		case "namekeyid-shortened":
